@@ -735,6 +735,21 @@ class _Stmt:
             if isinstance(s, ast.AnnAssign) and s.value is not None and (self.t.f.name != "__init__" or _scalar_annotation(s.annotation)):
                 s = ast.copy_location(ast.Assign(targets=[s.target], value=s.value, lineno=s.lineno), s)
                 self.changed = True
+            # if K in D: return D[K]; return V   (or: if K not in D: return V; return D[K])   ->   return D.get(K, V)
+            if isinstance(s, ast.If) and not s.orelse and len(s.body) == 1 and isinstance(s.body[0], ast.Return) and i + 1 < len(stmts) \
+                    and isinstance(stmts[i + 1], ast.Return) and isinstance(s.test, ast.Compare) and len(s.test.ops) == 1 \
+                    and isinstance(s.test.ops[0], (ast.In, ast.NotIn)) and s.body[0].value is not None and stmts[i + 1].value is not None:
+                K_, D_ = s.test.left, s.test.comparators[0]
+                hit_, miss_ = (s.body[0].value, stmts[i + 1].value) if isinstance(s.test.ops[0], ast.In) else (stmts[i + 1].value, s.body[0].value)
+                if isinstance(hit_, ast.Subscript) and ast.dump(_load(hit_.value)) == ast.dump(_load(D_)) and not isinstance(hit_.slice, ast.Slice) \
+                        and ast.dump(_load(hit_.slice)) == ast.dump(_load(K_)) and isinstance(D_, (ast.Name, ast.Attribute)) and _simple_key(K_) \
+                        and len(ast.unparse(miss_)) < 120 and not any(isinstance(x, (ast.Await, ast.Yield, ast.NamedExpr)) for x in ast.walk(miss_)):
+                    new_r = ast.copy_location(ast.Return(value=ast.Call(func=ast.Attribute(value=copy.deepcopy(D_), attr="get", ctx=ast.Load()),
+                                                                        args=[copy.deepcopy(K_), miss_], keywords=[])), s)
+                    ast.fix_missing_locations(new_r)
+                    self.changed = True
+                    stmts = stmts[:i] + [new_r] + stmts[i + 2:]
+                    continue
             # x = T.get(k); if x is not None: S   ->   if k in T: S[x := T[k]]      (T a constant table, x used nowhere else)
             if isinstance(s, ast.Assign) and len(s.targets) == 1 and isinstance(s.targets[0], ast.Name) and isinstance(s.value, ast.Call) \
                     and isinstance(s.value.func, ast.Attribute) and s.value.func.attr == "get" and len(s.value.args) == 1 and not s.value.keywords \
@@ -1349,6 +1364,31 @@ def _reduce_to_loop(node) -> bool:
     node.body = rewrite_block(node.body)
     return changed[0]
 
+def _locally_stable(model, node, after_stmt, attr: str) -> bool:
+    from .symflow import _mod_set
+    pos = (getattr(after_stmt, "lineno", 0), getattr(after_stmt, "col_offset", 0))
+    # only what runs between the binding and the last use of the local matters (everything, when a use sits in a loop)
+    local = after_stmt.targets[0].id
+    uses = [n for n in ast.walk(node) if isinstance(n, ast.Name) and n.id == local and isinstance(n.ctx, ast.Load) and hasattr(n, "lineno")]
+    last = max(((n.lineno, n.col_offset) for n in uses), default=pos)
+    in_loop = any(isinstance(l_, (ast.For, ast.While)) and any(u is x for x in ast.walk(l_) for u in uses) for l_ in ast.walk(node))
+    if in_loop:
+        last = (10 ** 9, 0)
+    for n in ast.walk(node):
+        if isinstance(n, ast.Attribute) and n.attr == attr and isinstance(n.ctx, (ast.Store, ast.Del)):
+            return False
+        if isinstance(n, ast.Call) and hasattr(n, "lineno") and pos < (n.lineno, n.col_offset) <= last:
+            nm = n.func.attr if isinstance(n.func, ast.Attribute) else n.func.id if isinstance(n.func, ast.Name) else None
+            if nm is None:
+                return False
+            if isinstance(n.func, ast.Name) and not model.methods_named(nm) and not any(nm in m_.functions for m_ in model.modules.values()):
+                continue  # a builtin / class constructor of another library: cannot re-bind our attribute
+            ms = _mod_set(model, nm)
+            if "*" in ms or attr in ms:
+                return False
+    return True
+
+
 def _alias_locals(model, f, node) -> bool:
     """`regs = state.register_file.registers` bound once to a plain attribute chain whose attributes are never re-bound after
     construction anywhere in the package (so the chain denotes the same object wherever it is read): the local is written out and the
@@ -1378,9 +1418,12 @@ def _alias_locals(model, f, node) -> bool:
             for a in chain:
                 d = sites.get(a)
                 if d is not None and (not d["init_only"]):
-                    ok = False
-                if len(chain) == 1 and (d is None or d["stores"] == 0 or d["mutated"]):
-                    ok = False  # a single attribute: only one that is demonstrably set in a constructor and left alone
+                    # re-bound somewhere in the package: still the same object within *this* function when nothing here stores an
+                    # attribute of that name and no call made after the binding can (callee mod-sets, by name)
+                    if not _locally_stable(model, node, st, a):
+                        ok = False
+                if len(chain) == 1 and (d is None or d["stores"] == 0):
+                    ok = False  # a single attribute: only one that is demonstrably set somewhere
                 if a in {nm for k in model.classes.values() for nm in k.methods}:
                     ok = False
             if ok:
@@ -1397,12 +1440,108 @@ def _alias_locals(model, f, node) -> bool:
     node.body = [T().visit(st) for st in node.body if id(st) not in drop]
     return True
 
+def _while_to_for(node) -> bool:
+    """`i = A; while i < B: BODY; i += 1`  ->  `for i in range(A, B): BODY`   (also `i != B` / `B > i`; a count-down `i = A; while i > 0:
+    BODY; i -= 1` that never reads i  ->  `for _ in range(A)`), when i is bound nowhere else in the loop, the bound is not changed by the
+    body, there is no `continue` (it would skip the step), and i is not read after the loop."""
+    changed = [False]
+
+    def names(e: ast.AST) -> set:
+        return {x.id for x in ast.walk(e) if isinstance(x, ast.Name)}
+
+    def reads_after(block: list, k: int, var: str) -> bool:
+        # conservative: any later read of var in the enclosing function after this statement (source order)
+        st = block[k]
+        end = (getattr(st, "end_lineno", None) or getattr(st, "lineno", 0), getattr(st, "end_col_offset", 0))
+        for n in ast.walk(node):
+            if isinstance(n, ast.Name) and n.id == var and isinstance(n.ctx, ast.Load) and hasattr(n, "lineno") and (n.lineno, n.col_offset) > end:
+                return True
+        # inside an enclosing loop a "later" read also happens in the next iteration: the init statement re-binds it first, fine
+        return False
+
+    def rewrite(block: list) -> list:
+        out: list = []
+        k = 0
+        while k < len(block):
+            st = block[k]
+            for fld in ("body", "orelse", "finalbody"):
+                v = getattr(st, fld, None)
+                if isinstance(v, list) and v and isinstance(v[0], ast.stmt) and not isinstance(st, (ast.FunctionDef, ast.AsyncFunctionDef, ast.ClassDef)):
+                    setattr(st, fld, rewrite(v))
+            if isinstance(st, ast.Try):
+                for h in st.handlers:
+                    h.body = rewrite(h.body)
+            done = False
+            if isinstance(st, ast.While) and not st.orelse and out and isinstance(out[-1], ast.Assign) and len(out[-1].targets) == 1 \
+                    and isinstance(out[-1].targets[0], ast.Name) and st.body:
+                i = out[-1].targets[0].id
+                init = out[-1].value
+                t = st.test
+                last = st.body[-1]
+                body = st.body[:-1]
+                step = None
+                if isinstance(last, ast.AugAssign) and isinstance(last.target, ast.Name) and last.target.id == i and isinstance(last.value, ast.Constant) \
+                        and last.value.value == 1 and isinstance(last.op, (ast.Add, ast.Sub)):
+                    step = 1 if isinstance(last.op, ast.Add) else -1
+                bound = None
+                if step == 1 and isinstance(t, ast.Compare) and len(t.ops) == 1:
+                    l_, r_ = t.left, t.comparators[0]
+                    if isinstance(t.ops[0], (ast.Lt, ast.NotEq)) and isinstance(l_, ast.Name) and l_.id == i:
+                        bound = r_
+                    elif isinstance(t.ops[0], ast.Gt) and isinstance(r_, ast.Name) and r_.id == i:
+                        bound = l_
+                    if isinstance(t.ops[0], ast.NotEq) and not (isinstance(init, ast.Constant) and init.value == 0):
+                        bound = None  # `!=` only equals `<` when the start cannot be beyond the bound
+                countdown = False
+                if step == -1 and isinstance(t, ast.Compare) and len(t.ops) == 1 and isinstance(t.left, ast.Name) and t.left.id == i \
+                        and isinstance(t.comparators[0], ast.Constant) and ((isinstance(t.ops[0], ast.Gt) and t.comparators[0].value == 0)
+                                                                             or (isinstance(t.ops[0], ast.GtE) and t.comparators[0].value == 1)
+                                                                             or (isinstance(t.ops[0], ast.NotEq) and t.comparators[0].value == 0 and False)):
+                    countdown = not any(isinstance(n, ast.Name) and n.id == i for b_ in body for n in ast.walk(b_))
+                ok = (bound is not None or countdown) and body
+                if ok:
+                    for b_ in body:
+                        for n in ast.walk(b_):
+                            if isinstance(n, ast.Name) and n.id == i and isinstance(n.ctx, (ast.Store, ast.Del)):
+                                ok = False
+                            if isinstance(n, ast.Continue):
+                                ok = False
+                            if bound is not None and isinstance(n, ast.Name) and isinstance(n.ctx, (ast.Store, ast.Del)) and n.id in names(bound):
+                                ok = False
+                    if bound is not None and (i in names(bound) or any(isinstance(x, ast.Call) for x in ast.walk(bound))):
+                        ok = False
+                    if reads_after(block, k, i):
+                        ok = False
+                if ok:
+                    if countdown:
+                        rng = ast.Call(func=ast.Name(id="range", ctx=ast.Load()), args=[init], keywords=[])
+                        tgt = ast.Name(id="_", ctx=ast.Store())
+                    else:
+                        args = [bound] if (isinstance(init, ast.Constant) and init.value == 0) else [init, bound]
+                        rng = ast.Call(func=ast.Name(id="range", ctx=ast.Load()), args=args, keywords=[])
+                        tgt = ast.Name(id=i, ctx=ast.Store())
+                    new = ast.copy_location(ast.For(target=tgt, iter=rng, body=body, orelse=[], lineno=st.lineno), st)
+                    ast.fix_missing_locations(new)
+                    out.pop()  # the initialisation is the range's start
+                    out.append(new)
+                    changed[0] = True
+                    done = True
+            if not done:
+                out.append(st)
+            k += 1
+        return out
+
+    node.body = rewrite(node.body)
+    return changed[0]
+
 
 def canonicalise(model, f) -> bool:
     """Rewrite f.node in place (a copy); returns True when something changed."""
     node = copy.deepcopy(f.node)
     named = _named_constants(model, f, node)
     named = _alias_locals(model, f, node) or named
+    if any(isinstance(n, ast.While) for n in ast.walk(node)):
+        named = _while_to_for(node) or named
     if any(isinstance(n, (ast.Name, ast.Attribute)) and (getattr(n, "id", None) == "reduce" or getattr(n, "attr", None) == "reduce") for n in ast.walk(node)):
         named = _reduce_to_loop(node) or named
     # the tables are looked up in the function as it stands now (named constants already written out: `Kind.A` as a key is its number)
@@ -1423,6 +1562,9 @@ def canonicalise(model, f) -> bool:
         st2 = _Stmt(tables)
         node.body = st2.block(node.body)
         st.changed = st.changed or st2.changed
+    if ex.changed or st.changed:
+        # a statement rewritten above (a split tuple assignment) may have produced another alias local
+        named = _alias_locals(model, f, node) or named
     if not (ex.changed or st.changed or named):
         return False
     _prune_covered_misses(node.body, {})
